@@ -609,6 +609,8 @@ enum Case {
     GccRequest(usize),
     GccResponse(GccResp),
     GccVersion(u32),
+    /// CS_CORE block built from a ClientData (version index, width, height, layout index, name index, selected protocol)
+    GccCore(usize, u16, u16, usize, usize, u32),
 }
 
 #[derive(Clone, Debug, Serialize)]
@@ -767,6 +769,18 @@ impl Prop for C18 {
         for n in [128usize, 129, 200, 236, 237, 255, 256, 1000, 0x3FF0, 0x3FF1, 0x3FF2, 0x4000, 0x7FF0] {
             cs.push(Case::GccRequest(n));
         }
+        // the client core data block for every combination of its parameters (the block carries each of them as given)
+        for vi in 0..2usize {
+            for (w, h) in [(800u16, 600u16), (0, 0), (65535, 1)] {
+                for li in 0..3usize {
+                    for ni in 0..4usize {
+                        for proto in [0u32, 1, 2, 8, 0xFFFF_FFFF] {
+                            cs.push(Case::GccCore(vi, w, h, li, ni, proto));
+                        }
+                    }
+                }
+            }
+        }
         for version in [0x00080001u32, 0x00080004, 0x00080005, 0x00080011, 0, 0xFFFFFFFF] {
             cs.push(Case::GccVersion(version));
             for core_opt in 0..3u8 {
@@ -794,7 +808,7 @@ impl Prop for C18 {
         json!({"idx": idx, "case": self.cases[idx as usize]})
     }
     fn rule(&self) -> String {
-        "cases: [model] every message shape of <=4 nodes (<=5 thorough) over {u8, U16/U32 LE/BE, fixed byte block, Check, Trame, Trame with an absent / present optional element in front of data, nested Component, 31 / 64 one-byte fields in a row (later fields at positions >= 32 / >= 64 of the record), size-dependent byte block and array (DynOption Size), skippable field (DynOption SkipField: adjacent target, distant target, two skips pending at once, a skip naming an earlier field, a skipped field that itself carries a skip), a size-dependent field that itself carries a skip or a size for the next field, a size announced for a field that is skipped, trailing Option present/absent, trailing rest-of-input block, trailing array} x 2 (5) value variants from {0,1,7F,80,FF,...}: length()==bytes written==reference bytes, read into an empty same-shape message (whose length() was asked first) reproduces every leaf and consumes exactly; a length field announcing another size than its block is written and measured by the block; after the round trip a plain record whose fields bear the same names is read (nothing noted for the earlier message applies to it), and the same bytes are read once more into the now filled message, which must still report the length it writes; [per] every length 0..0x7FFF, integers (all of u16, u32 boundaries; all 2^32 in thorough), integer16 (value,minimum) boundary pairs and whole rows, every nibble-valid 6-arc OID over {0,1,15,16,127,128,255}, octet strings at every length boundary, numeric strings; [asn1] INTEGER/ENUMERATED/OCTET STRING boundaries and the tagged shapes of MCS/CredSSP against an independent DER codec; [gcc] conference create request for block sizes across the PER length boundaries, every response of the reference encoder over versions x optional SC_CORE fields x 0..31 channels x 6 block orders x unknown block (none / 8-byte body / empty body between the blocks / empty body at the end) x node ids. Non-trivial: every case except single-leaf model shapes.".into()
+        "cases: [model] every message shape of <=4 nodes (<=5 thorough) over {u8, U16/U32 LE/BE, fixed byte block, Check, Trame, Trame with an absent / present optional element in front of data, nested Component, 31 / 64 one-byte fields in a row (later fields at positions >= 32 / >= 64 of the record), size-dependent byte block and array (DynOption Size), skippable field (DynOption SkipField: adjacent target, distant target, two skips pending at once, a skip naming an earlier field, a skipped field that itself carries a skip), a size-dependent field that itself carries a skip or a size for the next field, a size announced for a field that is skipped, trailing Option present/absent, trailing rest-of-input block, trailing array} x 2 (5) value variants from {0,1,7F,80,FF,...}: length()==bytes written==reference bytes, read into an empty same-shape message (whose length() was asked first) reproduces every leaf and consumes exactly; a length field announcing another size than its block is written and measured by the block; after the round trip a plain record whose fields bear the same names is read (nothing noted for the earlier message applies to it), and the same bytes are read once more into the now filled message, which must still report the length it writes; [per] every length 0..0x7FFF, integers (all of u16, u32 boundaries; all 2^32 in thorough), integer16 (value,minimum) boundary pairs and whole rows, every nibble-valid 6-arc OID over {0,1,15,16,127,128,255}, octet strings at every length boundary, numeric strings; [asn1] INTEGER/ENUMERATED/OCTET STRING boundaries and the tagged shapes of MCS/CredSSP against an independent DER codec; [gcc] the client core data block for 2 versions x 3 screen sizes x 3 layouts x 4 names x 5 selected protocols against the reference parser (each parameter is carried as given), conference create request for block sizes across the PER length boundaries, every response of the reference encoder over versions x optional SC_CORE fields x 0..31 channels x 6 block orders x unknown block (none / 8-byte body / empty body between the blocks / empty body at the end) x node ids. Non-trivial: every case except single-leaf model shapes.".into()
     }
     fn assumptions(&self) -> Vec<String> {
         vec![
@@ -1087,6 +1101,29 @@ impl Prop for C18 {
                     Ok(back) if back == ud => Outcome::pass("gcc-request", true),
                     Ok(_) => fail("gcc-request-userdata-differs", format!("{} bytes", n)),
                     Err(e) => fail("gcc-request-rejected-by-reference", format!("{} bytes of user data: {}", n, e)),
+                }
+            }
+            Case::GccCore(vi, w, h, li, ni, proto) => {
+                let name = ["rdp-rs", "", "fifteen-letters", "日本"][ni].to_string();
+                let (version, vcode) = [(lgcc::Version::RdpVersion, 0x00080001u32), (lgcc::Version::RdpVersion5plus, 0x00080004)][vi].clone();
+                let layout = crate::fixture::layout_of(li as u8);
+                let block = lgcc::client_core_data(Some(lgcc::ClientData { width: w, height: h, layout, server_selected_protocol: proto, rdp_version: version, name: name.clone() }));
+                let body = rdp::model::data::to_vec(&block);
+                if block.length() != body.len() as u64 {
+                    return fail("gcc-core-length-differs-from-bytes-written", format!("length() {} bytes {}", block.length(), body.len()));
+                }
+                let mut w2 = W::new();
+                w2.u16le(0xC001).u16le(body.len() as u16 + 4).bytes(&body);
+                match rgcc::parse_client_blocks(&w2.0) {
+                    Err(e) => fail("gcc-core-rejected-by-reference", e),
+                    Ok(b) => {
+                        let c = b.core;
+                        let want_name: String = name.encode_utf16().take(15).map(|u| char::from_u32(u as u32).unwrap_or('?')).collect();
+                        if c.version != vcode || c.width != w || c.height != h || c.kbd_layout != crate::fixture::layout_code(li as u8) || c.server_selected_protocol != Some(proto) || c.client_name.encode_utf16().collect::<Vec<_>>() != want_name.encode_utf16().collect::<Vec<_>>() {
+                            return fail("gcc-core-field-differs-from-the-parameter", format!("asked version {:#x} {}x{} layout {} name {:?} protocol {:#x}; block says version {:#x} {}x{} layout {:#x} name {:?} protocol {:?}", vcode, w, h, li, name, proto, c.version, c.width, c.height, c.kbd_layout, c.client_name, c.server_selected_protocol));
+                        }
+                        Outcome::pass("gcc-core", true)
+                    }
                 }
             }
             Case::GccVersion(v) => {
